@@ -101,10 +101,13 @@ def sortRel (ω : Oracle) (src out : Frame) (by_ : List Str) (asc : Bool) : Bool
   let rowsO := out.rows
   src.keys == out.keys && rowsS.length == rowsO.length &&
   rowsS.all (fun r => rowsS.count r == rowsO.count r) &&
-  (let keyIdx := by_.map (fun k => src.keys.idxOf k)
-   let kc (r : List Cell) := keyIdx.map (fun i => r.getD i .nil)
-   let ks := rowsO.map kc
-   (List.range (ks.length - 1)).all (fun i => !lessCells ω asc (ks.getD (i + 1) []) (ks.getD i [])))
+  -- a sort column mixing numbers and non-numeric text has no order (`C06.less_not_swo_without_homog`): what the
+  -- unstable `sort.Sort` makes of it is not determined, only "whole rows, a permutation" is (as in `Spec.sortSpec`)
+  ((by_.map (fun k => Spec.classify ω ((Spec.rowsOf src).map (fun r => Row.getD r k)))).contains .mixed ||
+   (let keyIdx := by_.map (fun k => src.keys.idxOf k)
+    let kc (r : List Cell) := keyIdx.map (fun i => r.getD i .nil)
+    let ks := rowsO.map kc
+    (List.range (ks.length - 1)).all (fun i => !lessCells ω asc (ks.getD (i + 1) []) (ks.getD i []))))
 
 def keyHasNaN (f : Frame) (by_ : List Str) : Bool :=
   by_.any (fun k => match f.get? k with
